@@ -10,7 +10,7 @@ RULE = ("well-formed documents = (random forest sampler + exhaustive enumeration
 def cases_for(rng, tier):
     out = []
     nmax = 5 if tier == "quick" else 7
-    forests = enum_forests(nmax) + wide_forests(12 if tier == "quick" else 24)
+    forests = enum_forests(nmax) + wide_forests(12 if tier == "quick" else 24) + very_wide_forests()
     for items in forests:
         sp = gen_spelling(rng, items) if rng.random() < 0.7 else plain_spelling(items)
         out.append((items, sp, rng.choice(BF_CHOICES), rng.choice(["0", "1"])))
